@@ -70,29 +70,68 @@ def _merge_table(R, tf):
                         % short(c.name).split("::")[-1], [c.loc()])
     stores = [(i, s_) for i, s_ in tf.stmts() if s_["k"] == "assign" and "*" in s_["pl"]["p"] and
               any(isinstance(e, dict) and e.get("n") == "token" and (e.get("adt") or "").endswith("ParserToken") for e in s_["pl"]["p"])]
+    def token_kinds(op, depth=8, seen=None):
+        """the Token values an operand can hold: {(variant, sub-variant)} read from the aggregates that define it (through moves and
+        Some(..) / tuple wrappers of an inlined helper's Option<Token> result); None when a definition is something else"""
+        seen = seen or set()
+        if op.get("k") == "const" or depth == 0:
+            return None
+        l = op["pl"]["l"]
+        if l in seen:
+            return set()
+        seen = seen | {l}
+        defs = [d for j, d in tf.stmts() if d["k"] == "assign" and d["pl"]["l"] == l and not d["pl"]["p"]]
+        # (`?` inside an inlined Option-returning helper defines the result through from_residual: that is the None case)
+        if not defs or [c for c in tf.calls if c.dest is not None and c.dest["l"] == l and not c.dest["p"]
+                        and not short(c.name).endswith("::from_residual")]:
+            return None
+        out = set()
+        for d in defs:
+            rv = d["rv"]
+            if rv["k"] == "aggr" and (rv.get("adt") or "").endswith("tokenizer::Token"):
+                var, sub = rv.get("variant"), None
+                for o2 in rv["ops"]:
+                    if o2.get("k") == "const":
+                        m = re.search(r"(Keyword|Operator)::(\w+)", str(o2.get("v", "")))
+                        sub = m.group(2) if m else sub
+                    elif o2.get("k") in ("copy", "move") and not o2["pl"]["p"]:
+                        d2 = [x for j, x in tf.stmts() if x["k"] == "assign" and x["pl"]["l"] == o2["pl"]["l"] and not x["pl"]["p"] and x["rv"]["k"] == "aggr"]
+                        if len(d2) == 1:
+                            sub = d2[0]["rv"].get("variant")
+                out.add((var, sub if var in ("Keyword", "Operator") else None))
+            elif rv["k"] == "aggr" and rv.get("variant") in ("Some", "Ok") and len(rv["ops"]) == 1:
+                sub_ = token_kinds(rv["ops"][0], depth - 1, seen)
+                if sub_ is None:
+                    return None
+                out |= sub_
+            elif rv["k"] == "aggr" and rv.get("variant") in ("None",):
+                continue
+            elif rv["k"] == "use" and rv["op"].get("k") in ("copy", "move"):
+                sub_ = token_kinds(rv["op"], depth - 1, seen)
+                if sub_ is None:
+                    return None
+                out |= sub_
+            else:
+                return None
+        return out
+
     for i, s_ in stores:
-        kind = None
         rv = s_["rv"]
-        src = rv["op"] if rv["k"] == "use" else None
-        if rv["k"] == "aggr":
-            defs = [s_]
-        elif src is not None and src["k"] in ("copy", "move") and not src["pl"]["p"]:
-            defs = [d for j, d in tf.stmts() if d["k"] == "assign" and d["pl"]["l"] == src["pl"]["l"] and not d["pl"]["p"]]
+        if rv["k"] == "use" and rv["op"].get("k") in ("copy", "move"):
+            kinds = token_kinds(rv["op"])
+        elif rv["k"] == "aggr":
+            kinds = token_kinds({"k": "copy", "pl": {"l": -1, "p": []}}) if False else None
+            var = rv.get("variant")
+            kinds = {(var, None)} if (rv.get("adt") or "").endswith("tokenizer::Token") and var not in ("Keyword", "Operator") else None
         else:
-            defs = []
-        if len(defs) == 1 and defs[0]["rv"]["k"] == "aggr" and (defs[0]["rv"].get("adt") or "").endswith("tokenizer::Token"):
-            var = defs[0]["rv"].get("variant")
-            sub = None
-            for op in defs[0]["rv"]["ops"]:
-                if op.get("k") == "const":
-                    m = re.search(r"(Keyword|Operator)::(\w+)", str(op.get("v", "")))
-                    sub = m.group(2) if m else sub
-                elif op.get("k") in ("copy", "move") and not op["pl"]["p"]:
-                    d2 = [d for j, d in tf.stmts() if d["k"] == "assign" and d["pl"]["l"] == op["pl"]["l"] and not d["pl"]["p"] and d["rv"]["k"] == "aggr"]
-                    if len(d2) == 1:
-                        sub = d2[0]["rv"].get("variant")
-            kind = (var, sub if var in ("Keyword", "Operator") else None)
+            kinds = None
         n += 1
+        if kinds and kinds <= MERGE_OK:
+            for kind in sorted(kinds, key=str):
+                R.ok("C20.merge", "tokenize|rewrite|%s" % "::".join(x for x in kind if x), "last token rewritten into %s" % "::".join(x for x in kind if x),
+                     "%s:%d" % (tf.file, s_["line"]), nontrivial=False)
+            continue
+        kind = sorted(kinds - MERGE_OK, key=str)[0] if kinds else None
         if kind in MERGE_OK:
             R.ok("C20.merge", "tokenize|rewrite|%s" % "::".join(x for x in kind if x), "last token rewritten into %s" % "::".join(x for x in kind if x),
                  "%s:%d" % (tf.file, s_["line"]), nontrivial=False)
